@@ -63,6 +63,16 @@ for m in sorted(glob.glob(os.path.join(V, "seeded", "*", "meta.json"))):
         if os.path.exists(xl) and not fhit:
             xh = [v for v in verdict(xl) if "VIOLATION with concrete replay" in v]
             if xh: FIRST[name] += "; caught by another property's check: " + xh[0].split(":")[0]
+    if k.startswith("r3-"):
+        fl = os.path.join(V, "notes", "seedlogs", f"r3first_{name}.log")
+        if os.path.exists(fl):
+            fr = verdict(fl)
+            fhit = [v for v in fr if "VIOLATION with concrete replay" in v]
+            fnf = [v for v in fr if "no-failing-input-found" in v]
+            FIRST[name] = "caught" if fhit else ("no concrete replay (broken obligation only)" if fnf else "missed by the property's own check")
+    if name == "C18-r3-2":
+        FIRST[name] = "not reported — judged not to violate C18 as stated (no key, point or secret value changes)"
+        det = "not reported, by design (see integrator_note in meta.json)"
     if name == "C07-2": det = "bin/check C11: VIOLATION with concrete replay, monitor kind not-durable-at-prepare:mc1 (restore after the phase-1 close request)"
     if name in ("C15-2b", "C11-1b"): det = "bin/check C15: VIOLATION channel-id-reuse; bin/check C11: VIOLATION not-durable-at-prepare:forget (both with concrete replays)"
     d["detected_by"] = det
